@@ -177,3 +177,11 @@ package control
 //@   ensures !outbound.IsReserved() && domain != "" && c.dialMode == consts.DialMode_Domain && !isIPLikeDomain(domain) && genuine() ==> useName() && shouldReroute
 //@   ensures !outbound.IsReserved() && domain != "" && c.dialMode == consts.DialMode_DomainPlus ==> useName() && !shouldReroute
 //@   ensures !outbound.IsReserved() && domain != "" && c.dialMode == consts.DialMode_DomainCao ==> useName() && shouldReroute
+
+// ---------------------------------------------------------------------------------------------
+// C12: rule sets may share prefix storage only when truly identical (the collision check of the
+// LPM dedup table compares whole prefixes - address and length - position by position).
+//@ func prefixesEqual
+//@   ensures result <==> (len(a) == len(b) && (forall i int :: 0 <= i && i < len(a) ==> a[i] == b[i]))
+//@   loop 1
+//@     invariant len(a) == len(b) && (forall k int :: 0 <= k && k < $idx ==> a[k] == b[k])
